@@ -91,7 +91,8 @@ class Worker(metaclass=SupportClassPropertiesMeta):
             self._started = True
             self._dead = True # should be set to False by the derived class, after a child is actually created
             self._start()
-            if not self._dead and not _is_restart:
+            if not self._dead:
+                # (a restarted worker might have been forgotten already if it was dead before the restart)
                 Worker.register_child(self)
         else:
             self._started = False
@@ -106,7 +107,7 @@ class Worker(metaclass=SupportClassPropertiesMeta):
     @staticmethod
     def active_children():
         with Worker._children_lock:
-            Worker._children = [child for child in Worker._active_children if child.is_alive()]
+            Worker._active_children = [child for child in Worker._active_children if child.is_alive()]
             cpy = copy.copy(Worker._active_children)
         for child in cpy:
             yield child
@@ -114,7 +115,8 @@ class Worker(metaclass=SupportClassPropertiesMeta):
     @staticmethod
     def register_child(child):
         with Worker._children_lock:
-            Worker._active_children.append(child)
+            if not any(c is child for c in Worker._active_children):
+                Worker._active_children.append(child)
 
     @classmethod
     def create(cls, worker_type, *args, **kwargs):
